@@ -46,10 +46,30 @@ func GenFor(prop string, rng *rand.Rand) *sim.Scenario {
 		s.Events = append(s.Events, sim.Injected{AtStep: st, AtState: state, Action: action})
 	}
 	exits := []string{"rollback", "delete", "disable", "v3"}
+	// forward jumps over at least one step need plans with >= 3 steps: make them common for the gate / traffic properties
+	if (prop == "C02" || prop == "C03" || prop == "C01" || prop == "C11") && rng.Intn(4) == 0 {
+		for len(s.Steps) < 3 {
+			last := s.Steps[len(s.Steps)-1]
+			s.Steps = append(s.Steps, sim.Step{Replicas: last.Replicas, Traffic: last.Traffic, Match: "", Pause: -1})
+		}
+		n = len(s.Steps)
+		from := 1 + rng.Intn(n-2)
+		s.Events = append(s.Events, sim.Injected{AtStep: from, AtState: []string{"StepPaused", "StepUpgrade", "StepTrafficRouting"}[rng.Intn(3)], Action: fmt.Sprintf("jump:%d", from+2+rng.Intn(n-from-1))})
+	}
+	// a rollout-id change while a later step is upgrading makes the BatchRelease walk up again from batch 0
+	if (prop == "C02" || prop == "C03" || prop == "C11" || prop == "C01") && s.RolloutID && len(s.Steps) >= 2 && rng.Intn(2) == 0 {
+		s.Events = append(s.Events, sim.Injected{AtStep: 2 + rng.Intn(len(s.Steps)-1), AtState: []string{"StepUpgrade", "StepUpgrade", "StepPaused"}[rng.Intn(3)], Action: "rolloutid"})
+	}
 	switch prop {
 	case "C05", "C18":
 		if rng.Intn(5) > 0 {
 			add(exits[rng.Intn(len(exits))])
+		}
+		if rng.Intn(6) == 0 {
+			s.Pre = append(s.Pre, []string{"plan-drop-last", "plan-add-step", "plan-bump"}[rng.Intn(3)])
+			if rng.Intn(2) == 0 {
+				s.Pre = append(s.Pre, []string{"delete", "disable"}[rng.Intn(2)])
+			}
 		}
 	case "C10":
 		add([]string{"rollback", "v3", "rollback"}[rng.Intn(3)])
@@ -73,6 +93,13 @@ func GenFor(prop string, rng *rand.Rand) *sim.Scenario {
 			add("pause")
 		}
 	case "C09":
+		// plan edits that validation allows while the Rollout is idle, then a deletion / disabling / release
+		if rng.Intn(3) == 0 {
+			s.Pre = append(s.Pre, []string{"plan-drop-last", "plan-add-step", "plan-bump"}[rng.Intn(3)])
+			if rng.Intn(2) == 0 {
+				s.Pre = append(s.Pre, []string{"delete", "disable"}[rng.Intn(2)])
+			}
+		}
 		switch rng.Intn(3) {
 		case 0:
 			add(fmt.Sprintf("jump:%d", []int{-5, -1, 0, n + 1, n + 5, 99, 2147483647}[rng.Intn(7)]))
